@@ -62,6 +62,23 @@ def cases(rng, tier):
         c = "ATTRMAP " + " ".join(toks)
         INFO[c] = m
         out.append(c)
+    # every printable ASCII character (but '=' in keys) at the start, in the middle and at the end of a key, and in a value:
+    # an attribute reader or writer that gives ONE more character a meaning (an escape, a quote, a comment sign) loses entries here
+    for cp in range(0x20, 0x7F):
+        ch = chr(cp)
+        ms = [{"k": ch}, {"k": "v" + ch}, {"k": ch + ch}]
+        if ch != "=":
+            ms += [{"k" + ch: "1"}, {ch + "k": ""}, {"a" + ch + "b": None}, {"k" + ch: None}, {ch: "x"}, {"k" + ch: "a=b"}, {ch + ch: ch}]
+        for m in ms:
+            toks = ["%x" % len(m)]
+            for k, v in m.items():
+                toks += [k.encode().hex()] + (["N"] if v is None else ["V", v.encode().hex() or "-"])
+            c = "ATTRMAP " + " ".join(toks)
+            INFO[c] = m
+            out.append(c)
+        for st in ("a" + ch + "=b=c", ch + "=", "k=" + ch + "=", "a=b" + ch + "=c", "k" + ch):
+            b = st.encode()
+            out.append("TXTATTR 1 " + b.hex())
     # keys that DNS-SD gives a meaning to (txtvers, ...) with absent, empty and non-empty values
     import attrgen
     for _ in range(800 if tier == "quick" else 8000):
